@@ -584,6 +584,19 @@ impl Prop for NotifProp {
         faults.extend(nodesim::gen_freeze_faults(seed, n, last + 2000));
         nodesim::add_restarts(seed, &mut faults);
         faults.extend(nodesim::gen_flip_faults(seed));
+        // flood (C12, 1 run in 12, independent stream): more notifications than the receiving
+        // handle's queue holds (4096) are sent while the receiving user does not read
+        if self.id == "C12" {
+            let mut r = Rng::fork(seed, "c12-flood");
+            if r.chance(1, 12) {
+                let (i, j) = if r.chance(1, 2) { (1u64, 2u64) } else { (2, 1) };
+                let t0 = 200 + r.below(500);
+                ops.push(json!({"at_ms": t0, "op": "open", "node": i, "to": j}));
+                ops.push(json!({"at_ms": t0 + 1500, "op": "stall", "node": j, "ms": *r.pick(&[4000u64, 9000])}));
+                ops.push(json!({"at_ms": t0 + 1510, "op": "send", "node": i, "to": j, "sync": false, "count": r.range(4200, 5200), "size": r.range(HDR as u64, 24)}));
+                ops.sort_by_key(|o| o["at_ms"].as_u64().unwrap_or(0));
+            }
+        }
         let mut per_node = Vec::new();
         for _ in 0..n {
             per_node.push(json!({
@@ -1017,16 +1030,17 @@ impl<'a> Ctx<'a> {
                 }
                 K::EOpenFailure { peer, err } if *peer == j => {
                     if open {
-                        // One specific shape is a recorded finding (KNOWN_FINDINGS.jsonl): the node has
-                        // already been told that the connection is gone, the user's own open request is
-                        // answered (no connection / dial failure) by the protocol task before the
-                        // per-stream task has reported the closure of the stream that died with it.
+                        // One specific shape is a recorded finding (KNOWN_FINDINGS.jsonl): every network
+                        // connection to the peer has ended, the user's own open request is answered
+                        // (no connection / dial failure) by the protocol task before the per-stream
+                        // task has reported the closure of the stream that died with the connection.
                         let conn_gone = matches!(err.as_str(), "DialFailure" | "NoConnection")
                             && open_credit > 0
-                            && {
+                            && (self.conns_between(i, j).iter().all(|c| c.4 > r.t || c.3.is_some_and(|d| d <= r.t)) || {
+                                // ... or the node has been told so (a new connection may already be on its way)
                                 let pos = evs.iter().position(|q| std::ptr::eq(*q, *r)).unwrap_or(0);
                                 evs[..pos].iter().rev().find(|q| matches!(&q.k, K::AEst { peer } | K::AClosed { peer } if *peer == j)).is_some_and(|q| matches!(q.k, K::AClosed { .. }))
-                            };
+                            });
                         let class = if conn_gone { "c11:open-failure-while-open:request-answered-before-closure-reported" } else { "c11:open-failure-while-open" };
                         v.push((class.into(), format!("node {i}: NotificationStreamOpenFailure({err}) for n{j} at {} while the stream is open", ts(r.t))));
                     }
